@@ -42,6 +42,23 @@ impl Operator {
         matches!(self, Self::And | Self::Or)
     }
 
+    /// The priority of the operator; a higher value binds tighter.
+    pub fn priority(&self) -> u8 {
+        match self {
+            Self::Multiply | Self::Divide => 5,
+            Self::Modulo => 4,
+            Self::Plus | Self::Minus => 3,
+            Self::Less
+            | Self::LessOrEqual
+            | Self::Equal
+            | Self::GreaterOrEqual
+            | Self::Greater
+            | Self::NotEqual => 2,
+            Self::And => 1,
+            Self::Or => 0,
+        }
+    }
+
     pub fn is_plus_or_minus(&self) -> bool {
         matches!(self, Self::Plus | Self::Minus)
     }
